@@ -77,11 +77,11 @@ def dense(mat):
     return [[v for v in row] for row in mat.tolist()]
 
 
-def make_sparse(fmt, shape, entries):
+def make_sparse(fmt, shape, entries, dtype=None):
     """sparse matrix with the given stored entries [(i, j, v), ...] in format fmt; duplicates and
     explicit zeros are kept for COO"""
     np, sp = boot.np, boot.sp
-    data = arr([e[2] for e in entries])
+    data = arr([e[2] for e in entries]) if dtype is None else np.array([e[2] for e in entries], dtype=dtype)
     rows = np.array([e[0] for e in entries], dtype=int)
     cols = np.array([e[1] for e in entries], dtype=int)
     m = sp.sparse.coo_matrix((data, (rows, cols)), shape=shape)
@@ -98,7 +98,7 @@ class UFProblem:
     multiplier' visible to the solver).  Created through make_problem()."""
 
 
-def make_problem(E, var_kinds, cons_kinds, fmt="coo", jac_pattern=None, hess_pattern=None, policy="fresh", tag="", faults=None, log=None, point_faults=None):
+def make_problem(E, var_kinds, cons_kinds, fmt="coo", jac_pattern=None, hess_pattern=None, policy="fresh", tag="", faults=None, log=None, point_faults=None, int_matrices=False):
     """returns (problem, spec).  spec carries the symbolic bounds and the call log."""
     Problem = boot.mod("problem").Problem
     np = boot.np
@@ -151,11 +151,19 @@ def make_problem(E, var_kinds, cons_kinds, fmt="coo", jac_pattern=None, hess_pat
 
     const = policy == "cached"  # constant Jacobian / Hessian returned as one cached object
 
+    def _integral(v):
+        # callbacks returning integer-dtype matrices (as tests/pygradflow/tame.py does): integer-valued entries
+        if int_matrices and boot.MODE == "sym":
+            E.assume(core.SB(core.z3.IsInt(core.zexpr(v))))
+        return v
+
+    mdt = int if int_matrices else None
+
     def Jf(i, j, xs):
-        return E.uf(f"{tag}J{i}_{j}") if const else E.uf(f"{tag}J{i}_{j}", *xs)
+        return _integral(E.uf(f"{tag}J{i}_{j}") if const else E.uf(f"{tag}J{i}_{j}", *xs))
 
     def Hf(a, b, xs, ys):
-        return E.uf(f"{tag}H{a}_{b}") if const else E.uf(f"{tag}H{a}_{b}", *xs, *ys)
+        return _integral(E.uf(f"{tag}H{a}_{b}") if const else E.uf(f"{tag}H{a}_{b}", *xs, *ys))
 
     spec = dict(jac_pattern=jac_pattern, hess_pattern=hess_pattern)  # the CURRENT patterns (a harness may switch them between evaluation points)
 
@@ -186,7 +194,7 @@ def make_problem(E, var_kinds, cons_kinds, fmt="coo", jac_pattern=None, hess_pat
         def cons_jac(self, x):
             xs = items(x)
             calls.append(("cons_jac", xs, None, caller()))
-            return memo("J", pkey(x), lambda: make_sparse(fmt, (m, n), [(i, j, flag("cons_jac", Jf(i, j, xs))) for (i, j) in spec["jac_pattern"]]))
+            return memo("J", pkey(x), lambda: make_sparse(fmt, (m, n), [(i, j, flag("cons_jac", Jf(i, j, xs))) for (i, j) in spec["jac_pattern"]], dtype=mdt))
 
         def lag_hess(self, x, y):
             xs, ys = items(x), items(y)
@@ -197,7 +205,7 @@ def make_problem(E, var_kinds, cons_kinds, fmt="coo", jac_pattern=None, hess_pat
                 for (i, j) in spec["hess_pattern"]:
                     a, b = (i, j) if i <= j else (j, i)
                     ent.append((i, j, flag("lag_hess", Hf(a, b, xs, ys))))
-                return make_sparse(fmt, (n, n), ent)
+                return make_sparse(fmt, (n, n), ent, dtype=mdt)
 
             return memo("H", pkey(x, y), build)
 
